@@ -34,8 +34,21 @@ import (
 //     receives the notifications of at most one further message of the streams
 //     that existed then;
 //   - notifications in hand-over order;
-//   - Poll, and Close of a plain client, before the first Subscribe call return
-//     client.ErrClientInit (its documentation).
+//   - Poll, Impl, and Close of a plain client, before the first Subscribe call
+//     return client.ErrClientInit (its documentation).
+//
+// Every exported entry point of the client is a step (entry.go lists them):
+// Poll and Impl / Synced / Leaves are issued on goroutines of their own at
+// generated instants relative to Subscribe and Close, over transports whose
+// Impl.Poll and Impl.Subscribe may block (Attempt.Poll, Attempt.Sub "park",
+// SubDelay). Nothing is demanded OF those calls beyond the above; what is judged
+// is that Subscribe and Close keep their bounds and the client keeps
+// resubscribing whatever else is in flight. A goroutine of the client left
+// waiting for a lock is a verdict of its own (guardedBubble).
+//
+// The context of every Subscribe call has a generated shape (ctxKinds): a
+// context that ends by its own or its parent's deadline is a stop action like a
+// call of the cancel function, at the instant the deadline passes.
 //
 // Two Subscribe calls never overlap (the clients do not define that): a
 // "subscribe" step that finds the previous Subscribe running is skipped when
@@ -48,11 +61,17 @@ import (
 // 3+4i ns, every event a step causes keeps the residue of that step modulo
 // 15625 ns).
 type LifeOp struct {
-	Kind string `json:"kind"` // "subscribe" | "cancel" | "close" | "poll"
+	Kind string `json:"kind"` // "subscribe" | "cancel" | "close" | "poll" | "impl"
 	Wait int    `json:"wait,omitempty"`
 	// Cancelled (subscribe only): the context handed to Subscribe has already
-	// been cancelled.
+	// ended (cancel function called, or - a shape that ends by a deadline - the
+	// deadline lies in the past).
 	Cancelled bool `json:"cancelled,omitempty"`
+	// Ctx (subscribe only): the shape of the context of this call (ctxKinds).
+	// For the shapes that end by a deadline, the deadline passes Deadline units
+	// (+1 ns) after the call.
+	Ctx      string `json:"ctx,omitempty"`
+	Deadline int    `json:"deadline,omitempty"`
 	// Query (subscribe only): the kind of query of this call (query.go); "" is
 	// the valid Stream query.
 	Query string `json:"query,omitempty"`
@@ -71,6 +90,9 @@ type LScenario struct {
 	DecoyFirst   bool      `json:"decoy_first,omitempty"` // see Scenario.DecoyFirst
 	Attempts     []Attempt `json:"attempts"`
 	Ops          []LifeOp  `json:"ops"`
+	// Profile is informational except for the non-trivial rule: "" for part
+	// "lifetime", "entry" for part "entry" (see genLife).
+	Profile string `json:"profile,omitempty"`
 }
 
 const maxLifeOps = 24
@@ -93,9 +115,15 @@ func (sc *LScenario) validate() error {
 	}
 	for i, op := range sc.Ops {
 		switch op.Kind {
-		case "subscribe", "cancel", "close", "poll":
+		case "subscribe", "cancel", "close", "poll", "impl":
 		default:
 			return fmt.Errorf("step %d kind %q", i, op.Kind)
+		}
+		if !knownCtxKind(op.Ctx) || (op.Ctx != "" && op.Kind != "subscribe") {
+			return fmt.Errorf("step %d: context shape %q", i, op.Ctx)
+		}
+		if op.Deadline < 0 || op.Deadline > 1000000 || (op.Deadline != 0 && !ctxSelfEnding(op.Ctx)) {
+			return fmt.Errorf("step %d: deadline %d", i, op.Deadline)
 		}
 		if op.Wait < 0 || op.Wait > 1000000 {
 			return fmt.Errorf("step %d wait %d", i, op.Wait)
@@ -112,7 +140,7 @@ func (sc *LScenario) validate() error {
 		// (Close before that is documented to return ErrClientInit and stop
 		// nothing): every attempt of a plain case succeeds or fails at once.
 		for i, a := range sc.Attempts {
-			if (a.Conn != "ok" && a.Conn != "err") || a.ConnDelay != 0 {
+			if (a.Conn != "ok" && a.Conn != "err") || a.ConnDelay != 0 || a.SubDelay != 0 || a.Sub == "park" {
 				return fmt.Errorf("plain client: attempt %d must connect or fail at once", i)
 			}
 		}
@@ -122,7 +150,7 @@ func (sc *LScenario) validate() error {
 
 // lifeCall is one call of the sequence and what became of it.
 type lifeCall struct {
-	kind string // "subscribe" | "close" | "poll"
+	kind string // "subscribe" | "close" | "poll" | "impl"
 	op   int    // index of the step (len(Ops) for the closing Close)
 	n    int    // ordinal among the calls of its kind
 	at   time.Duration
@@ -137,8 +165,13 @@ type lifeCall struct {
 	query     string // kind of query (query.go)
 	refused   bool   // the client documents that this call fails at once
 	callSeq   int    // len(w.events) after the call was recorded
-	cancel    context.CancelFunc
-	beginBase int // underlying attempts begun before the call
+	cancel    func() // ends the context (no-op for a shape that ends by its deadline)
+	release   func() // frees the context at the end of the case
+	ctx       context.Context
+	ctxKind   string
+	dlAt      time.Duration // instant at which the deadline of the context passes (0: none)
+	dlDone    bool          // ... and the harness has seen it pass
+	beginBase int           // underlying attempts begun before the call
 	stopped   bool
 	stopKind  string // "cancel" | "close" | "closed-before" | "cancelled-before"
 	stopAt    time.Duration
@@ -162,6 +195,8 @@ func kindName(k string) string {
 		return "Subscribe"
 	case "close":
 		return "Close"
+	case "impl":
+		return "Impl"
 	}
 	return "Poll"
 }
@@ -182,18 +217,8 @@ func runLifeBubble(t *testing.T, sc *LScenario) (st *stats, err error) {
 	client.RetryMaxDelay = time.Duration(sc.MaxDelay) * Unit
 	client.RetryRandomization = 0
 	defer curWorld.Store(nil)
-	defer func() {
-		if r := recover(); r != nil {
-			msg := fmt.Sprintf("goroutines of the case are still blocked after the closing Close, the cancellation of every context and the release of every scripted stream: %v", r)
-			if err != nil {
-				err = newVerr(classOf(err), "%s; additionally %s", err.Error(), msg)
-			} else {
-				err = newVerr("stuck-goroutines", "%s", msg)
-			}
-		}
-	}()
 	err = newVerr("harness-error", "bubble did not run")
-	synctest.Test(t, func(*testing.T) {
+	deadlock, panicked := guardedBubble(t, func() {
 		defer func() {
 			if r := recover(); r != nil {
 				err = newVerr("panic", "panic on the scenario goroutine: %v", r)
@@ -205,6 +230,17 @@ func runLifeBubble(t *testing.T, sc *LScenario) (st *stats, err error) {
 			err = nil
 		}
 	})
+	if deadlock != "" {
+		return st, newVerr("lock-deadlock", "%s", deadlock)
+	}
+	if panicked != nil {
+		msg := fmt.Sprintf("goroutines of the case are still blocked after the closing Close, the cancellation of every context and the release of every scripted stream: %v", panicked)
+		if err != nil {
+			err = newVerr(classOf(err), "%s; additionally %s", err.Error(), msg)
+		} else {
+			err = newVerr("stuck-goroutines", "%s", msg)
+		}
+	}
 	return st, err
 }
 
@@ -267,6 +303,7 @@ func runLife(sc *LScenario, st *stats) *verr {
 		nSub    int
 		nClose  int
 		nPoll   int
+		nImpl   int
 		closeAt = time.Duration(-1) // first Close call
 		v       *verr               // first violation found while running
 	)
@@ -391,6 +428,55 @@ func runLife(sc *LScenario, st *stats) *verr {
 		}
 	}
 
+	// advance sleeps until `at`. If the context of the running Subscribe call
+	// ends by a deadline that passes on the way, that is the call's stop action:
+	// the harness looks at the situation 1 ns before the deadline (deadlines
+	// carry a residue no other instant of the case has, and nothing can happen
+	// in between) and lets it pass.
+	advance := func(at time.Duration) {
+		if s := cur; s != nil && s.dlAt > 0 && !s.dlDone && s.dlAt <= at {
+			sleepUntil(s.dlAt - time.Nanosecond)
+			if isReturned(s) {
+				st.label("deadline-passes-after-subscribe-returned")
+			} else if s.stopped {
+				st.label("deadline-passes-while-stopped-subscribe-unwinds")
+			}
+			markStop(s, "deadline", s.dlAt)
+			w.record("ctx-deadline", -1, fmt.Sprintf("#%d %s", s.n, ctxLabel(s.ctxKind)))
+			s.dlDone = true
+			sleepUntil(s.dlAt)
+			if s.ctx.Err() == nil && v == nil {
+				v = newVerr("harness-error", "the deadline of the context of %v did not pass at %v", s, s.dlAt)
+			}
+		}
+		sleepUntil(at)
+	}
+	// pollWouldShareStream: a Poll call now would read a stream that another
+	// call is reading or about to read (a POLL query is or was subscribed and
+	// either an attempt is past Impl.Subscribe or another Poll is in flight).
+	pollWouldShareStream := func() string {
+		pollQuery := false
+		for _, k := range calls {
+			if k.kind == "subscribe" && queryPollType(k.query) {
+				pollQuery = true
+			}
+		}
+		if !pollQuery {
+			return ""
+		}
+		w.mu.Lock()
+		defer w.mu.Unlock()
+		if w.nBegin > w.nEnd && len(w.attempts) == w.nBegin && w.attempts[w.nBegin-1].subscribed {
+			return "attempt-reads-the-stream"
+		}
+		for _, k := range calls {
+			if k.kind == "poll" && !k.returned {
+				return "another-poll-in-flight"
+			}
+		}
+		return ""
+	}
+
 	issued := 0 // steps issued so far: fixes the residue of the next instant
 	next := func(wait int) time.Duration {
 		now := w.now()
@@ -400,7 +486,7 @@ func runLife(sc *LScenario, st *stats) *verr {
 		return at
 	}
 	doClose := func(op int, at time.Duration) {
-		sleepUntil(at)
+		advance(at)
 		k := &lifeCall{kind: "close", op: op, n: nClose, at: w.now()}
 		nClose++
 		if cur != nil && !isReturned(cur) {
@@ -420,11 +506,16 @@ func runLife(sc *LScenario, st *stats) *verr {
 			}
 		case k.sub.stopped && k.sub.stopKind == "cancel":
 			st.label("close-while-cancelled-subscribe-unwinds")
+		case k.sub.stopped && k.sub.stopKind == "deadline":
+			st.label("close-while-deadline-ended-subscribe-unwinds")
 		case k.sub.stopped:
 			st.label("close-while-closed-subscribe-unwinds")
 		}
 		if k.n > 0 {
 			st.label("close-again")
+		}
+		if cur != nil && cur.dlDone {
+			st.label("close-after-deadline-of-context-passed")
 		}
 		for _, o := range calls {
 			if o.kind == "close" && !isReturned(o) {
@@ -445,6 +536,11 @@ ops:
 		switch op.Kind {
 		case "subscribe":
 			if cur != nil && !isReturned(cur) {
+				if !cur.stopped && cur.dlAt > 0 && !cur.dlDone {
+					// the deadline of its context is its stop action: wait for it
+					advance(cur.dlAt)
+					st.label("subscribe-step-waited-for-deadline-of-previous-context")
+				}
 				if !cur.stopped {
 					st.label("subscribe-step-skipped-previous-still-running")
 					continue
@@ -456,7 +552,7 @@ ops:
 					break ops
 				}
 			}
-			sleepUntil(next(op.Wait))
+			advance(next(op.Wait))
 			s := &lifeCall{kind: "subscribe", op: i, n: nSub, at: w.now(), query: op.Query, refused: queryRefused(op.Query, sc.Plain, sc.Client == "cache")}
 			nSub++
 			if op.Query != "" {
@@ -473,8 +569,20 @@ ops:
 			w.mu.Lock()
 			s.beginBase = w.nBegin
 			w.mu.Unlock()
-			ctx, cancel := context.WithCancel(context.Background())
-			s.cancel = cancel // (called at the end of the case at the latest)
+			after := time.Duration(op.Deadline)*Unit + time.Nanosecond
+			if op.Ctx == "parent-deadline" {
+				after += time.Nanosecond
+			}
+			if op.Cancelled {
+				after = -time.Hour
+			}
+			ctx, cancel, release := mkCtx(op.Ctx, after)
+			s.cancel, s.release, s.ctx, s.ctxKind = cancel, release, ctx, op.Ctx // (released at the end of the case at the latest)
+			st.label(ctxLabel(op.Ctx))
+			if ctxSelfEnding(op.Ctx) && !op.Cancelled {
+				s.dlAt = s.at + after
+				st.label("ctx-with-deadline-that-passes")
+			}
 			if s.refused {
 				// needs no stop action: it fails at once whatever the client's state
 			} else if closeAt >= 0 && !sc.Plain {
@@ -507,6 +615,8 @@ ops:
 				switch cur.stopKind {
 				case "cancel":
 					st.label("subscribe-again-after-cancelled-subscribe")
+				case "deadline":
+					st.label("subscribe-again-after-deadline-ended-subscribe")
 				case "close":
 					st.label("subscribe-again-after-closed-subscribe")
 				case "closed-before", "cancelled-before":
@@ -529,9 +639,12 @@ ops:
 				st.label("cancel-step-skipped-no-subscribe-yet")
 				continue
 			}
-			sleepUntil(next(op.Wait))
+			advance(next(op.Wait))
 			if isReturned(cur) {
 				st.label("cancel-after-subscribe-returned")
+			}
+			if cur.dlAt > 0 && !cur.dlDone {
+				st.label("cancel-of-context-whose-deadline-has-not-passed")
 			}
 			markStop(cur, "cancel", w.now())
 			w.record("cancel", -1, fmt.Sprintf("#%d", cur.n))
@@ -540,13 +653,15 @@ ops:
 		case "close":
 			doClose(i, next(op.Wait))
 		case "poll":
-			if cur != nil && !isReturned(cur) && queryPollType(cur.query) {
-				// Poll reads the stream itself; the clients do not define
-				// that for a stream Subscribe is still reading.
-				st.label("poll-step-skipped-poll-query-still-subscribed")
+			advance(next(op.Wait))
+			if why := pollWouldShareStream(); why != "" {
+				// Poll reads the stream itself; the clients do not define that
+				// for a stream Subscribe (or another Poll) is reading. While a
+				// reconnecting Subscribe is between attempts or connecting again
+				// Poll is documented ("may fail").
+				st.label("poll-step-skipped-" + why)
 				continue
 			}
-			sleepUntil(next(op.Wait))
 			p := &lifeCall{kind: "poll", op: i, n: nPoll, at: w.now()}
 			nPoll++
 			switch {
@@ -556,12 +671,52 @@ ops:
 				st.label("poll-after-close")
 			case cur != nil && !isReturned(cur):
 				st.label("poll-while-subscribed")
+				ph, _ := situation(cur)
+				st.label("poll-" + phaseLabel(ph))
+				if cur.stopped {
+					st.label("poll-while-stopped-subscribe-unwinds")
+				}
 			default:
 				st.label("poll-after-subscribe-returned")
+				if cur != nil && cur.stopped && cur.stopKind != "close" {
+					st.label("poll-after-context-ended")
+				}
 			}
 			calls = append(calls, p)
 			w.record("poll-call", -1, fmt.Sprintf("#%d", p.n))
 			go func() { finish(p, "poll-ret", c.Poll()) }()
+			synctest.Wait()
+			if !isReturned(p) {
+				st.label("poll-call-blocked-after-its-step")
+			}
+		case "impl":
+			advance(next(op.Wait))
+			p := &lifeCall{kind: "impl", op: i, n: nImpl, at: w.now()}
+			nImpl++
+			switch {
+			case nSub == 0:
+				st.label("impl-before-any-subscribe")
+			case closeAt >= 0:
+				st.label("impl-after-close")
+			case cur != nil && !isReturned(cur):
+				ph, _ := situation(cur)
+				st.label("impl-" + phaseLabel(ph))
+			default:
+				st.label("impl-after-subscribe-returned")
+			}
+			calls = append(calls, p)
+			w.record("impl-call", -1, fmt.Sprintf("#%d", p.n))
+			go func() {
+				_, err := c.Impl()
+				if cc, ok := inner.(*client.CacheClient); ok {
+					select {
+					case <-cc.Synced():
+					default:
+					}
+					cc.Leaves()
+				}
+				finish(p, "impl-ret", err)
+			}()
 			synctest.Wait()
 		}
 	}
@@ -587,8 +742,8 @@ ops:
 	// End of the case: release everything the script may still hold.
 	w.abort()
 	for _, k := range calls {
-		if k.cancel != nil {
-			k.cancel()
+		if k.release != nil {
+			k.release()
 		}
 	}
 	select {
@@ -755,7 +910,7 @@ func judgeLife(sc *LScenario, w *world, st *stats, calls []*lifeCall, deaf map[i
 		if !before || !c.returned {
 			continue
 		}
-		if c.kind == "poll" || (c.kind == "close" && sc.Plain) {
+		if c.kind == "poll" || c.kind == "impl" || (c.kind == "close" && sc.Plain) {
 			if c.err != client.ErrClientInit {
 				return newVerr("client-init", "%v was made before the first Subscribe call and returned %v, not client.ErrClientInit", c, c.err)
 			}
@@ -931,7 +1086,7 @@ func judgeLife(sc *LScenario, w *world, st *stats, calls []*lifeCall, deaf map[i
 
 // lifeLabels derives the labels and the non-trivial rule. Called with w.mu held.
 func lifeLabels(sc *LScenario, w *world, st *stats, calls []*lifeCall) {
-	nSub, nClose, nPoll := 0, 0, 0
+	nSub, nClose, nPoll, nImpl := 0, 0, 0, 0
 	for _, c := range calls {
 		switch c.kind {
 		case "subscribe":
@@ -940,7 +1095,55 @@ func lifeLabels(sc *LScenario, w *world, st *stats, calls []*lifeCall) {
 			nClose++
 		case "poll":
 			nPoll++
+		case "impl":
+			nImpl++
 		}
+	}
+	if nImpl > 0 {
+		st.label("impl-calls>=1")
+	}
+	// What the transport made of the poll requests, and what the client was
+	// asked to do while one of them was blocked inside the transport.
+	blocked := map[int]int{} // attempt -> Impl.Poll calls that have not returned
+	nBlocked := 0
+	stressed := false
+	for _, e := range w.events {
+		switch e.Kind {
+		case "impl-poll":
+			st.label("poll-reached-transport")
+			if e.Note != "" {
+				st.label("poll-reached-transport:" + e.Note)
+			}
+			blocked[e.Attempt]++
+			nBlocked++
+		case "impl-poll-ret":
+			blocked[e.Attempt]--
+			nBlocked--
+			if e.Note != "<nil>" {
+				st.label("transport-poll-failed")
+			}
+		case "close-call":
+			if nBlocked > 0 {
+				st.label("close-while-poll-blocked-in-transport")
+				stressed = true
+			}
+		case "subscribed":
+			if nBlocked > 0 {
+				st.label("resubscribed-while-poll-blocked-in-transport")
+				stressed = true
+			}
+		case "cancel", "ctx-deadline":
+			if nBlocked > 0 {
+				st.label("context-ended-while-poll-blocked-in-transport")
+			}
+		case "sub-park":
+			st.label("impl-subscribe-parks")
+		case "sub-wait":
+			st.label("impl-subscribe-takes-time")
+		}
+	}
+	if nBlocked > 0 {
+		st.label("harness-note:transport-poll-unreleased-at-end")
 	}
 	switch {
 	case nSub == 0:
@@ -986,8 +1189,13 @@ func lifeLabels(sc *LScenario, w *world, st *stats, calls []*lifeCall) {
 			break
 		}
 	}
-	// Non-trivial: a second (or later) Subscribe call on the same client.
+	// Non-trivial: a second (or later) Subscribe call on the same client. Part
+	// "entry": the client was closed, or resubscribed, while a poll request was
+	// blocked inside the transport.
 	st.nontriv = nSub >= 2
+	if sc.Profile == "entry" {
+		st.nontriv = stressed
+	}
 	if st.nontriv {
 		st.label("nontrivial")
 	}
